@@ -1,8 +1,8 @@
 (* Engine.v -- executable model of the REST engine (cmd/cremengine/engine/api + internal/pkg/server/rest),
    shared by C14 and C15.  No proofs in this file.
 
-   Transcribed handler by handler from the Go sources AS THEY ARE with the fix series proposed_fixes/SERIES-C14C15.txt
-   applied, including the ORDER of side effects.  Every Go expression that can fail at run time (x.(T) without ", ok",
+   Transcribed handler by handler from the Go sources AS THEY ARE at /repo b0400cb (the fix series
+   proposed_fixes/SERIES-C14C15.txt and the CSV cell-text fix are committed there), including the ORDER of side effects.  Every Go expression that can fail at run time (x.(T) without ", ok",
    s[i], a nil dereference, an explicit panic) is an explicit [Panic] branch carrying the Go location in a comment.
 
    Abstraction boundary (what the model takes as INPUT rather than computes): a request carries the PARSE-LEVEL view the
@@ -39,10 +39,12 @@ Inductive ctype := CtToml | CtCsv | CtJson | CtOther.
 
 Inductive nonfin := NaN | PInf | NInf.
 Inductive fval := Fin (q : Q) | NonFin (k : nonfin).
+(* A cell = the base type the caster gave the field (Cell / CellFloat64 see this) + the field's text as encoding/csv
+   delivered it (CsvTableImpl.CellString returns that text verbatim, whatever the cast: /repo b0400cb). *)
 Inductive cell :=
-| CF (f : fval) (txt : string)   (* float64; txt = fmt.Sprintf("%v", f), what CellString returns *)
-| CB (b : bool)
-| CS (s : string).
+| CF (f : fval) (txt : string)   (* cast to float64 *)
+| CB (b : bool) (txt : string)   (* cast to bool *)
+| CS (s : string).               (* stayed a string: the text itself *)
 Record table := { t_header : list string; t_rows : list (list cell) }.
 Inductive csv_view := CsvErr | CsvOk (t : table) | CsvLibPanic.   (* CsvErr: reader error or no record at all *)
 (* The three ...LibPanic constructors: the library call itself panicked on this body.  The model propagates it as
@@ -239,7 +241,7 @@ Definition cell_at (t : table) (col row : nat) : res cell :=          (* bt.cell
   | Some r => match nth_error r col with None => Panic | Some c => Ok c end
   end.
 Definition cell_string_of (c : cell) : string :=                       (* CellString *)
-  match c with CS s => s | CF _ txt => txt | CB _ => "" end.
+  match c with CS s => s | CF _ txt => txt | CB _ txt => txt end.
 Definition cell_string (t : table) (col row : nat) : res string := res_map cell_string_of (cell_at t col row).
 Definition cell_float (t : table) (col row : nat) : res fval :=        (* CellFloat64: .(float64) unchecked, baseTable.go:43 *)
   do c <- cell_at t col row; match c with CF f _ => Ok f | _ => Panic end.
